@@ -1823,10 +1823,43 @@ impl PhysicalPlanner {
             }
 
             LogicalPlan::Values(node) => {
-                // Evaluate constant expressions and create a batch
+                // Evaluate the constant expressions into ONE batch: each cell
+                // is evaluated against a one-row, zero-column batch, cast to
+                // the column type the binder inferred, and the cells of a
+                // column are concatenated in row order.
                 let schema = plan_schema_to_arrow(&node.schema);
-                // For now, return empty - proper implementation needs expression evaluation
-                let exec = MemoryTableExec::new("values", schema, vec![], None);
+                if node.values.is_empty() {
+                    let exec = MemoryTableExec::new("values", schema, vec![], None);
+                    return Ok(Arc::new(exec));
+                }
+                let one_row = arrow::record_batch::RecordBatch::try_new_with_options(
+                    Arc::new(Schema::empty()),
+                    vec![],
+                    &arrow::record_batch::RecordBatchOptions::new().with_row_count(Some(1usize)),
+                )?;
+                let mut columns: Vec<arrow::array::ArrayRef> =
+                    Vec::with_capacity(schema.fields().len());
+                for (ci, field) in schema.fields().iter().enumerate() {
+                    let mut cells: Vec<arrow::array::ArrayRef> =
+                        Vec::with_capacity(node.values.len());
+                    for row in &node.values {
+                        let expr = row.get(ci).ok_or_else(|| {
+                            QueryError::Plan("VALUES rows of different width".into())
+                        })?;
+                        let cell = crate::physical::operators::evaluate_expr(&one_row, expr)?;
+                        let cell = if cell.data_type() == field.data_type() {
+                            cell
+                        } else {
+                            arrow::compute::cast(cell.as_ref(), field.data_type())?
+                        };
+                        cells.push(cell);
+                    }
+                    let refs: Vec<&dyn arrow::array::Array> =
+                        cells.iter().map(|c| c.as_ref()).collect();
+                    columns.push(arrow::compute::concat(&refs)?);
+                }
+                let batch = arrow::record_batch::RecordBatch::try_new(schema.clone(), columns)?;
+                let exec = MemoryTableExec::new("values", schema, vec![batch], None);
                 Ok(Arc::new(exec))
             }
 
